@@ -17,6 +17,9 @@ def c14_jobs(tier):
     jobs += [J("ast", "ZZ_C14_rsp", rsp=r, req=q) for r in range(3) for q in range(7)]
     jobs += [J("ast", "ZZ_C14_type")]
     jobs += [J("ast", "ZZ_C14_generic", len=n) for n in range(0, 14)]
+    jobs += [J("hsms", "ZZ_C14_decode")]
+    jobs += [J("hsms", "ZZ_C14_roundtrip", kind=k) for k in range(8)]
+    jobs += [J("hsms", "ZZ_C14_foreign", rsp=r) for r in range(3)]
     return jobs
 
 
@@ -51,6 +54,7 @@ def c01_jobs(tier):
     jobs = [J("hsms", "ZZ_C01_leaf", kind=k, n=n) for k in LEAF_KINDS for n in ns]
     # the item header for EVERY size (harness shared with C13): items of exactly 16,777,215 bytes included
     jobs += [J("ast", "ZZ_C13_header", typ=t) for t in range(14)]
+    jobs += [J("sml", "ZZ_C01_sml", which=w) for w in range(3)]
     if tier == "quick":
         jobs += [J("hsms", "ZZ_C01_tree", depth=2, width=2, menu=2, maxn=1)]
         bsizes = [255, 256, 257]
@@ -285,7 +289,7 @@ def c19_jobs(tier):
     return jobs
 
 
-SEQ_TOK = [20, 17, 16, 7, 14, 7, 32]
+SEQ_TOK = [20, 17, 16, 7, 14, 7, 16, 32]
 
 
 def c08_jobs(tier):
@@ -351,6 +355,10 @@ def c12_jobs(tier):
     for w in (4, 8, 2):
         for gt in range(12):
             jobs.append(J("ast", "ZZ_C12_float", w=w, gt=gt))
+    for kind, ws in ((0, (1, 8)), (1, (2, 8)), (2, (1,))):
+        for w in ws:
+            for gt in ((0, 4, 5, 9) if tier == "quick" else range(10)):
+                jobs.append(J("ast", "ZZ_C12_fill", kind=kind, w=w, gt=gt))
     jobs.append(J("ast", "ZZ_C12_binary_int"))
     for k in ([0, 1, 2, 3] if tier == "quick" else [0, 1, 2, 3, 8, 9]):
         jobs.append(J("ast", "ZZ_C12_binary_str", k=k))
